@@ -97,6 +97,16 @@ func (x *Exec) ident(st *State, e *ast.Ident) Term {
 		if t, ok := st.vars[o]; ok {
 			return t
 		}
+		if o.Pkg() != nil && o.Parent() == o.Pkg().Scope() {
+			if x.initGlobals {
+				// inside init: package-level variables start at their zero value
+				z := x.c().zero(x.c().sortOf(o.Type()), o.Type())
+				z.Go = o.Type()
+				st.vars[o] = z
+				return z
+			}
+			return x.c().global(o)
+		}
 		if o.Parent() == o.Pkg().Scope() || (o.Pkg() != nil && o.Parent() == nil && !o.IsField()) {
 			return x.c().global(o)
 		}
